@@ -279,7 +279,7 @@ package parsley
 //@   ensures  [ctx] WfCtx(ctx)
 //@   ensures  [cache] WfCache(ctx)
 //@   ensures  [PC1;C04] n == nil && err == nil ==> GhostCurtailed
-//@   ensures  [PC2;C07] n != nil ==> NodeOK(n) && ListOwn(n)
+//@   ensures  [PC2;C07] n != nil ==> NodeOK(n) && ListOwn(n) && allocatedid(ListArr(n))
 //@   ensures  [spare-frame;C07] forall a int :: !freshid(a) ==> GhostSpare(a) == old(GhostSpare(a))
 //@   ensures  [PC3;C02] n != nil ==> EndsWithin(n, pos, Eof(ctx.reader, pos))
 //@   ensures  [PC3e;C08] err != nil ==> pos <= err.Pos() && err.Pos() <= Eof(ctx.reader, pos)
